@@ -277,8 +277,9 @@ def decide_locked(h, workdir, solver, timeout, mem_gb, extra_flags):
             if m and "body not available" not in line:
                 uws.append(m.group(1) + ":2")
     extra_flags = list(extra_flags) + (["--unwindset", ",".join(uws)] if uws else [])
-    cmd = ["/usr/bin/time", "-f", "MAXRSS_KB=%M", "cbmc"] + CBMC_BASE + ["--unwind", str(unwind),
-          "--sat-solver", solver] + list(extra_flags) + [out, "--verbosity", "8"]
+    solver_flags = ["--external-sat-solver", "kissat"] if solver == "kissat" else ["--sat-solver", solver]
+    cmd = ["/usr/bin/time", "-f", "MAXRSS_KB=%M", "cbmc"] + CBMC_BASE + ["--unwind", str(unwind)] + \
+        solver_flags + list(extra_flags) + [out, "--verbosity", "8"]
     rc, dt, _ = run(cmd, timeout=timeout, out=logf, mem_gb=mem_gb)
     try:
         os.remove(out)
